@@ -35,10 +35,18 @@ class Infra(Exception):
 # tie 1: translator
 # ----------------------------------------------------------------------------
 def regen():
-    """Regenerate Gen/*.lean from the current source. Returns (ok, message)."""
+    """Regenerate Gen/*.lean from the current source. Returns (ok, message, {piece: message} for the pieces that failed)."""
     p = subprocess.run([PY, os.path.join(VERIF, "tools", "translate.py")],
                        capture_output=True, text=True, env=dict(os.environ, CATII_REPO=REPO))
-    return p.returncode == 0, (p.stdout + p.stderr).strip()
+    out = (p.stdout + p.stderr).strip()
+    failed = {}
+    for line in out.splitlines():
+        m = re.match(r"FAILED (\w+): (.*)", line)
+        if m:
+            failed[m.group(1)] = m.group(2)
+    if p.returncode != 0 and not failed:
+        failed["translator"] = out[-300:]
+    return p.returncode == 0, out, failed
 
 
 # ----------------------------------------------------------------------------
